@@ -45,6 +45,14 @@ Theorem C09_wf_swap : forall known sto input i k, wf_emitted known sto input i =
 Proof. exact wf_emitted_swap. Qed.
 Print Assumptions C09_wf_swap.
 
+(* ... and its pseudo-pushes (tags, data and library references, immutables, sub-assembly sizes) occur
+   with the same operand in the input block *)
+Theorem C09_wf_pseudo_push : forall known sto input i, wf_emitted known sto input i = true ->
+  mem_str (disasm i) pseudo_push_names = true ->
+  exists j, In j input /\ disasm j = disasm i /\ ivalue j = ivalue i.
+Proof. exact wf_emitted_pseudo_push. Qed.
+Print Assumptions C09_wf_pseudo_push.
+
 (* non-vacuity *)
 Example C09_items :
   map (wf_emitted ["ADD"; "MLOAD"] false [mkI "PUSH [tag]" (Some "5") 0])
